@@ -24,6 +24,22 @@ CLAIMED = {
             "functions and header constants, in both data configurations, and must fail exactly when a required part fails.",
             "components themselves are decided by C01/C02/C12; identities share the library's own components so a common-mode error in a component is invisible here",
             "DESIGN.md 2/C05"),
+    "C06": ("Hypothesis property-based testing: grammar-generated formulas / NIST names / invalid names x energies x angles x densities against the mixture rule evaluated from public elemental functions (reference model oracle)",
+            "All 21 _CP functions and the 3 refractive-index entry points are compared (1e-13; delta and beta through header-derived constants) with the "
+            "mass-fraction mixture rule on Hypothesis-generated compounds in both data configurations, including the full failure matrix.",
+            "composition as returned by the library's parser/NIST lookup is taken as given (C07/C15); elemental functions by C02/C05",
+            "DESIGN.md 2/C06"),
+    "C07": ("exhaustive singles/pairs + Hypothesis grammar generation with algebraic rewrites (metamorphic) + mutation-generated malformed strings with a three-way reference recogniser",
+            "The parser result is compared (1e-12) with an exact Fraction expansion for every single symbol, all 107^2 pairs and Hypothesis-generated "
+            "formulas, must be invariant under term permutation and group expansion, must reject the listed malformed classes, must leave the "
+            "numeric locale untouched, and add_compound_data must give the ascending weighted union.",
+            "strings that are neither in the strict grammar nor in a listed rejection class are UNSPECIFIED (only internal consistency is required)",
+            "DESIGN.md 2/C07"),
+    "C08": ("structured enumeration (all Z x 9 shells x all line macros x 5 variants x 2 units x edge-bracketing energies) + generated helper arguments against a name-derived reference recursion (reference model oracle)",
+            "Every CS(b)_FluorShell/Line_Kissel* entry point and the 32 exported vacancy helpers are compared (1e-9) with a cascade recursion "
+            "built only from public primitives, Auger terms chosen by parsing transition names; configuration B gives values, in A every call must fail.",
+            "primitives trusted (C01/C02/C11); one %.10E rounding in the precomputed transfer constants",
+            "DESIGN.md 2/C08"),
     "C09": ("structured enumeration (all Z x shells x all line macros x edge-bracketing energies) + seeded draws against an independent re-implementation of the jump-ratio model (reference model oracle)",
             "CS(b)_FluorShell/Line for every Z, shell and line macro at energies on both sides of every K/L edge are compared at 1e-13 with "
             "photo x share x yield x rate recomputed from the public primitives; errors required below the edge / for unavailable inputs.",
